@@ -6,12 +6,14 @@
              tokens: ["b", ty, val] | ["n", ind] | ["i", ind] | ["d", ind | null]
     errwrap  {"exc": null | {cls, isException, isValueError, line, column, str}, "version", "path", "lines"}
              -> {"returned": true} | {"raised": cls, "msg": msg};  attr: "missing" | null | int | "other"
+    preexpand {"lines": [str]} -> {"ok": [str]}   (`_apply_pre_parsing_expansions`, line lists)
     numbered {"lines": [str]} -> {"ok": [[text, indentation, comment|null, number]]} | {"err": "IndexError"}
 -/
 import NemoVerif.Drive.Common
 import NemoVerif.Models.Layout
 import NemoVerif.Models.ErrWrap
 import NemoVerif.Models.NumberedLines
+import NemoVerif.Models.PreExpand
 
 namespace NemoVerif.Drive.C13
 open Lean NemoVerif NemoVerif.Drive
@@ -96,6 +98,10 @@ def handle (op : String) (j : Json) : Except String Json := do
     | .ok recs => pure (Json.mkObj [("ok", Json.arr (recs.map fun r =>
         Json.arr #[safeStr (String.ofList r.text), Json.num (JsonNumber.fromNat r.indentation),
           match r.comment with | none => .null | some c => safeStr (String.ofList c)]).toArray)])
+  | "preexpand" =>
+    let la ← (← j.getObjVal? "lines").getArr?
+    let lines ← la.toList.mapM fun x => x.getStr?
+    pure (Json.mkObj [("ok", Json.arr ((PreExpand.preExpand (lines.map String.toList)).map fun l => safeStr (String.ofList l)).toArray)])
   | _ => throw s!"unknown op C13.{op}"
 
 end NemoVerif.Drive.C13
